@@ -1,21 +1,10 @@
 import ArgoVerif.Proofs.PopWaitC
-/- Proofs.PopWaitC2 — timing invariant: steps of the polling pools. -/
+/- Proofs.PopWaitC2 — timing invariant: call, return, passing of time. -/
 namespace ArgoVerif.Model.PopWait
 open ArgoVerif
 set_option maxHeartbeats 2000000
 
-/-- the other actors: nothing of theirs changed, the clock did not go back -/
-macro "other" h:ident b:ident hb:ident : tactic => `(tactic|
-  (have hb0 := $h $b
-   simp only [bump, setPc, takeL, dropL, linkQ, upd, $hb:ident, if_false] at hb0 ⊢
-   first | exact hb0 | exact timeOk_mono hb0 (by simp_all <;> omega)))
-
-macro "acting" h:ident a:ident : tactic => `(tactic|
-  (have hb0 := $h $a
-   simp only [bump, setPc, takeL, dropL, linkQ, upd, if_true] at hb0 ⊢
-   tk hb0))
-
-theorem invC_call (k : Kind) (s s' : St) (a : Actor) (c : Call) (h : InvC k s) (hs : stepCall k s a c = some s') :
+theorem invC_call (k : Kind) (s s' : St) (a : Actor) (c : Call) (hA : InvA k s) (h : InvC k s) (hs : stepCall k s a c = some s') :
     InvC k s' := by
   unfold stepCall at hs
   split at hs
@@ -24,55 +13,26 @@ theorem invC_call (k : Kind) (s s' : St) (a : Actor) (c : Call) (h : InvC k s) (
     intro b
     by_cases hb : b = a
     · subst hb
-      cases k <;> cases c <;> acting h b
+      cases k <;> cases c <;> acting hA h b
     · other h b hb
 
-theorem invC_ret (k : Kind) (s s' : St) (a : Actor) (r : Option Nat) (h : InvC k s) (hs : stepRet s a r = some s') :
+theorem invC_ret (k : Kind) (s s' : St) (a : Actor) (r : Option Nat) (hA : InvA k s) (h : InvC k s) (hs : stepRet s a r = some s') :
     InvC k s' := by
   unfold stepRet at hs
   split at hs
   · cases hs
     intro b
     by_cases hb : b = a
-    · subst hb; acting h b
+    · subst hb; acting hA h b
     · other h b hb
   · cases hs
 
-theorem invC_advance (k : Kind) (s s' : St) (v : Nat) (h : InvC k s) (hs : stepAdvance s v = some s') : InvC k s' := by
+theorem invC_advance (k : Kind) (s s' : St) (v : Nat) (hA : InvA k s) (h : InvC k s) (hs : stepAdvance s v = some s') : InvC k s' := by
   unfold stepAdvance at hs
   split at hs
   · cases hs
   · rename_i hv; cases hs
     intro b; exact timeOk_mono (h b) (by simp at hv ⊢; omega)
 
-/-- after the case analysis of a step function: conclude for every actor -/
-macro "pointwise" h:ident a:ident hs:ident : tactic => `(tactic|
-  first
-  | (cases $hs:ident; done)
-  | (cases $hs:ident
-     intro b
-     by_cases hb : b = $a
-     · subst hb; acting $h b
-     · other $h b hb))
-
-theorem invC_tas (k : Kind) (s s' : St) (a : Actor) (o : Bool) (h : InvC k s) (hs : stepTas s a o = some s') :
-    InvC k (bump s' (some a)) := by
-  unfold stepTas at hs
-  cases o <;> (repeat' (split at hs)) <;> pointwise h a hs
-
-theorem invC_loadLock (k : Kind) (s s' : St) (a : Actor) (v : Bool) (h : InvC k s) (hs : stepLoadLock s a v = some s') :
-    InvC k (bump s' (some a)) := by
-  unfold stepLoadLock at hs
-  cases v <;> (repeat' (split at hs)) <;> pointwise h a hs
-
-theorem invC_sleepDone (k : Kind) (s s' : St) (a : Actor) (h : InvC k s) (hs : stepSleepDone s a = some s') :
-    InvC k (bump s' (some a)) := by
-  unfold stepSleepDone at hs
-  (repeat' (split at hs)) <;> pointwise h a hs
-
-theorem invC_link (k : Kind) (s s' : St) (a : Actor) (h : InvC k s) (hs : stepLink s a = some s') :
-    InvC k (bump s' (some a)) := by
-  unfold stepLink at hs
-  (repeat' (split at hs)) <;> pointwise h a hs
 
 end ArgoVerif.Model.PopWait
